@@ -50,7 +50,9 @@ def reset():
     ml.ML_ALLOWLIST.update(copy.deepcopy(BASE0))
 
 
-def replay(hist):
+def replay(hist, shared=False):
+    """shared=True: the caller keeps ONE additions list per use (activations / constructions) and edits it in place; no
+    unrelated unpickler is constructed in between (the probes through a fresh unpickler are skipped)"""
     reset()
     if ml.ML_ALLOWLIST != BASE0:
         raise SystemExit("reset of ML_ALLOWLIST failed")
@@ -64,7 +66,7 @@ def replay(hist):
             a = ADD[op[-1]]
             if a is None:
                 fickling.activate_safe_ml_environment()
-            elif len(steps) % 2:
+            elif shared:
                 ACT_LIST[:] = a
                 fickling.activate_safe_ml_environment(also_allow=ACT_LIST)
             else:
@@ -72,7 +74,7 @@ def replay(hist):
             active = True
         else:
             a = ADD[op[-1]]
-            if a and len(steps) % 2 == 0:
+            if a and shared:
                 CON_LIST[:] = a
                 inst = (lambda data: ml.FicklingMLUnpickler(io.BytesIO(data), also_allow=CON_LIST))
             else:
@@ -83,7 +85,8 @@ def replay(hist):
         entry = [lambda d: pickle.loads(d), lambda d: pickle.load(io.BytesIO(d)),
                  lambda d: _pickle.loads(d), lambda d: _pickle.load(io.BytesIO(d))]
         st["env"] = [outcome(lambda g=g, k=k: entry[(k + len(steps)) % 4](pk(g))) for k, g in enumerate(GLOBALS)]
-        st["plain"] = [outcome(lambda g=g: ml.FicklingMLUnpickler(io.BytesIO(pk(g))).load()) for g in GLOBALS]
+        st["plain_ran"] = not shared
+        st["plain"] = [outcome(lambda g=g: ml.FicklingMLUnpickler(io.BytesIO(pk(g))).load()) for g in GLOBALS] if not shared else ["na"] * len(GLOBALS)
         st["inst"] = [outcome(lambda g=g: inst(pk(g)).load()) for g in GLOBALS] if inst else ["na"] * len(GLOBALS)
         st["base_same"] = ml.ML_ALLOWLIST == BASE0
         steps.append(st)
@@ -98,7 +101,7 @@ def main():
         m, n = g.rsplit(".", 1)
         if (m in BASE0 and n in BASE0[m]) != want:
             raise SystemExit(f"vocabulary assumption broken: {g} in built-in allowlist = {not want}")
-    out = [{"id": i, "hist": h, "steps": replay(h)} for i, h in enumerate(hists)]
+    out = [{"id": i, "hist": h, "steps": replay(h, shared=(i % 2 == 1))} for i, h in enumerate(hists)]
     json.dump(out, open(sys.argv[2], "w"))
 
 
